@@ -13,7 +13,7 @@ import itertools as it
 import warnings
 
 from ..engine import chunks
-from ..impl import Converter, Record, canon, to_record
+from ..impl import Converter, Record, canon, model_of, to_record
 from ..refmodel import Model, mrec
 from ..universe import recs_from_json, recs_to_json, set_partitions, strings
 
@@ -61,9 +61,18 @@ def all_T(tier):
     return out
 
 
+OTHER_SEPARATORS = ["#", "/", "_", "=", "?"]   # the third symbol ':' of the URI alphabet replaced by other usual separators
+
+
 def units(tier, seed):
     Ts = all_T(tier)
-    return [{"tier": tier, "seed": seed, "Ts": [list(T) for T in ch]} for ch in chunks(Ts, 128)]
+    us = [{"tier": tier, "seed": seed, "Ts": [list(T) for T in ch]} for ch in chunks(Ts, 128)]
+    # the same space for |T| <= 2 with another separator character in place of ':' (queries use it too)
+    small = [list(T) for T in Ts if len(T) <= 2 and all(len(t) <= 2 for t in T)]
+    for sep in OTHER_SEPARATORS:
+        for ch in chunks(small, 2):
+            us.append({"tier": tier, "seed": seed, "Ts": ch, "sep": sep})
+    return us
 
 
 def construct(recs, delim, mode, probe=None):
@@ -76,8 +85,19 @@ def construct(recs, delim, mode, probe=None):
         m = Model([], delim)
         if probe:
             probe(conv, m)
-        for r in recs:
-            conv.add_record(to_record(r))
+        for i, r in enumerate(recs):
+            rec = to_record(r)
+            if i == 0:
+                rec.pattern = "(["   # patterns are not interpreted by URI parsing; an uncompilable one is legal input today
+            try:
+                conv.add_record(rec)
+            except ValueError:
+                # a clean rejection (e.g. a future validation of patterns) is not C01's business - but it must leave
+                # nothing registered: the model is not extended, and the probes and the final queries say so
+                if probe:
+                    probe(conv, m)
+                conv._c01_effective_model = m
+                continue
             m.records.append(r)
             if probe:
                 probe(conv, m)
@@ -110,6 +130,13 @@ def construct(recs, delim, mode, probe=None):
                     probe(conv, m)
         return conv
     raise ValueError(mode)
+
+
+def canon_uri(conv):
+    """canon() without the patterns (C01 plants an uncompilable pattern in one construction mode; patterns play no role
+    in URI parsing)."""
+    d, recs, idx = canon(conv)
+    return (d, tuple(r[:4] for r in recs), idx[:3] + idx[4:])
 
 
 def check_query(conv, model, u, fails, where):
@@ -170,9 +197,13 @@ def run_case(case, ctx=None):
     model = Model(recs, delim)
     Q = qstrings(b["query_len"])
     P = qstrings(b["probe_len"])
+    sep = case.get("sep")
+    if sep:   # strings of the case are already written with sep; write the queries with it too
+        Q = [q.replace(":", sep) for q in Q]
+        P = [q.replace(":", sep) for q in P]
     only = case.get("only")  # replay of one specific (perm, mode, query)
     base = construct(recs, delim, "ctor")
-    base_canon = canon(base)
+    base_canon = canon_uri(base)
     if ctx is not None:
         ctx.state(hash(base_canon))
         ctx.count("transitions")
@@ -218,20 +249,25 @@ def run_case(case, ctx=None):
             try:
                 conv = construct(order, delim, mode, probe)
             except Exception as e:  # noqa
+                fails.extend(step_fails[:2])
                 fails.append(("C01/construction-raises/" + mode, f"{where}: {type(e).__name__}: {e}"))
                 continue
             if ctx is not None:
                 ctx.count("transitions", len(order) + sum(len(r.usyn) for r in order) if mode != "ctor" else 1)
                 ctx.count("orders_and_modes")
             fails.extend(step_fails[:3])
-            if canon(conv) != base_canon:
+            eff = getattr(conv, "_c01_effective_model", None)
+            if eff is not None:
+                # after a rejection, "registered" is what the converter's own records list says
+                eff = model_of(conv)
+            if eff is None and canon_uri(conv) != base_canon:
                 fails.append(("C01/state-depends-on-order-or-mode/" + mode, f"{where}: canonical state differs from the constructor's"))
             # thorough: the full query set on every permutation and mode (no reliance on state deduplication) up to 3 URI
             # prefixes; for 4 prefixes the probe set (all strings up to probe_len) on every variant
             nstrings = sum(len(r.uri_prefixes) for r in recs)
             qs = Q if ((b["full_query_all_variants"] and nstrings <= 3) or only is not None) else P
             for u in qs:
-                check_query(conv, model, u, fails, where)
+                check_query(conv, eff or model, u, fails, where + (" (one record was rejected)" if eff else ""))
             if ctx is not None:
                 ctx.count("evaluations", len(qs) * 3)
                 ctx.count("validated")
@@ -244,10 +280,15 @@ def run_case(case, ctx=None):
 
 
 def run_unit(unit, ctx):
+    sep = unit.get("sep")
     for T in unit["Ts"]:
+        if sep:
+            T = [t.replace(":", sep) for t in T]
         for recs in shapes_for(T):
             for delim in DELIMS:
                 case = {"recs": recs_to_json(recs), "delim": delim, "tier": unit["tier"]}
+                if sep:
+                    case["sep"] = sep
                 fails = run_case(case, ctx)
                 ctx.count("configurations")
                 if len(ctx.samples) < 1 and len(recs) >= 2:
@@ -273,7 +314,7 @@ def describe(tier):
         "every incremental step; distinct_nontrivial = distinct configurations having a query matched by >= 2 registered URI prefixes",
         "bounds": b,
         "exhaustive": True,
-        "assumptions": ["URI alphabet {x,y,:} (+ fresh z in queries); CURIE prefixes are fixed names a..d (they are not what C01 quantifies over)"],
+        "assumptions": ["URI alphabet {x,y,:} (+ fresh z in queries; for |T| <= 2 also with #, /, _, =, ? in place of ':'); CURIE prefixes are fixed names a..d (they are not what C01 quantifies over)"],
     }
 
 
